@@ -25,6 +25,21 @@ Definition add_v (g : vgraph) (nb : list nat) : option vgraph :=
     Some (S nv, (ne + Z.of_nat (length nb))%Z, d1 ++ [Z.of_nat (length nb)], e1)
   end.
 
+(* well-formedness of a visible graph: array lengths, 0/1 entries, DegreeSequence[v] = number of
+   neighbours of v in the packed upper triangle, NumberOfEdges = number of ones *)
+Definition ones (e : list N) : nat := length (filter (N.eqb 1) e).
+Definition degree_of (e : list N) (n v : nat) : nat :=
+  length (filter (fun u => negb (u =? v) && (nth (edge_index u v) e 0 =? 1)%N) (seq 0 n)).
+Definition wfv (g : vgraph) : Prop :=
+  let '(nv, ne, d, e) := g in
+  length d = nv /\ length e = tri nv /\
+  Forall (fun b => b = 0%N \/ b = 1%N) e /\
+  (forall v, v < nv -> nth v d 0%Z = Z.of_nat (degree_of e nv v)) /\
+  ne = Z.of_nat (ones e).
+(* a well-formed graph on exactly n vertices *)
+Definition wf_graph (n : nat) (g : vgraph) : Prop :=
+  (let '(nv, _, _, _) := g in nv = n) /\ wfv g.
+
 Section Spec.
 Variable grow : nat -> nat.
 Variable canon : nat -> Z -> list (list nat) -> bool -> N -> cache.
